@@ -146,8 +146,11 @@ Payload ==
                  ELSE Sized2(Body2(<<[present |-> e2 # <<>>, b |-> e2]>>, 0), FALSE),
         resj |-> WJ(t.res, renv, st.r, "canon")]
   ELSE IF st.kind = "bytes2"
-  THEN [kind |-> "bytes2", tn |-> st.tn, b |-> st.b,
-        dec2ok |-> Dec2(st.tn, st.b, 1, Len(st.b)).ok]
+  THEN LET r == Dec2(st.tn, st.b, 1, Len(st.b)) IN
+       [kind |-> "bytes2", tn |-> st.tn, b |-> st.b,
+        dec2ok |-> r.ok,
+        dec2consumed |-> IF r.ok THEN r.pos - 1 ELSE 0,
+        dec2re |-> IF r.ok THEN Enc2(st.tn, r.v, FALSE) ELSE <<>>]
   ELSE IF st.kind = "reenc"
   THEN [kind |-> "reenc", tn |-> st.tn, m |-> st.m, origin2 |-> TY(st.tn).origin2, negzero |-> HasNegZero(st.tn, st.v), badkey |-> HasBadKey(st.tn, st.v),
         b |-> ReBytes, accept |-> st.m # "oversize",
